@@ -406,7 +406,7 @@ class World:
             tx = self.root_tx(int(w[1]))
             if tx is None:
                 return 'na', None
-            c0, c1 = ({'l': list, 't': tuple}[x] for x in w[3])
+            c0, c1 = ({'l': list, 't': tuple, 'L': MyList, 'T': MyTuple}[x] for x in w[3])
             tx.wit = C.CTxWitness(c0(C.CTxInWitness(SC.CScriptWitness(c1(st))) for st in p_wit(w[2])))
             return 'done', None
         if k == 'newtxd':
@@ -420,6 +420,34 @@ class World:
             if self.kind(pr) != 0:
                 return 'na', None
             return 'created', C.CMutableTxIn(pr, SC.CScript(bytes.fromhex(w[2])), int(w[3]))
+        if k == 'newcin':       # D23: the immutable class, given a caller's (possibly mutable) outpoint object
+            sc, q = SC.CScript(bytes.fromhex(w[2])), int(w[3])
+            if w[1] == '-':
+                return 'created', C.CTxIn(scriptSig=sc, nSequence=q)
+            pr = self.resolve(p_target(w[1]))
+            if self.kind(pr) != 0:
+                return 'na', None
+            return 'created', C.CTxIn(pr, sc, q)
+        if k in ('wlset', 'wlapp'):     # D23: in-place edits of the sequence inside a CTxWitness object
+            o, kk = self.resolve_k(p_target(w[1]))
+            if kk != 4:
+                return 'na', None
+            item = C.CTxInWitness(SC.CScriptWitness(tuple(p_wit(w[-1])[0])))
+            if k == 'wlset':
+                o.vtxinwit[int(w[2])] = item
+            else:
+                o.vtxinwit.append(item)
+            return 'done', None
+        if k in ('stset', 'stapp'):     # D23: in-place edits of the stack inside a CTxInWitness's CScriptWitness
+            o, kk = self.resolve_k(p_target(w[1]))
+            if kk != 3:
+                return 'na', None
+            b = bytes.fromhex(w[-1])
+            if k == 'stset':
+                o.scriptWitness.stack[int(w[2])] = b
+            else:
+                o.scriptWitness.stack.append(b)
+            return 'done', None
         raise ValueError('unknown op ' + op)
 
     def verify(self, tx, in_idx, calls):
@@ -842,7 +870,28 @@ class Gen:
         rt = self.roots[t]
         e = r.choice(('setref-vin', 'setref-vout', 'setref-wit', 'setref-prev', 'appref-in', 'appref-out', 'repref-in',
                       'repref-out', 'newtxfrom', 'newtxfrom-d', 'newtxd', 'newin', 'newin-none', 'setprev', 'mismatch',
-                      'mkseq', 'mkseq', 'newctxfrom', 'setwitc'))
+                      'mkseq', 'mkseq', 'newctxfrom', 'setwitc', 'newcin', 'newcin-none', 'wl', 'wl', 'st', 'st'))
+        if e == 'newcin':
+            src = self.tx_part(('op',))
+            pool = [i for i, x in enumerate(self.roots) if x is not None and x['kind'] == 'op']
+            if pool and r.random() < 0.4:
+                src = str(r.choice(pool))
+            return self.emit('newcin %s %s %d' % (src, hx(self.script()), self.u32(r.random() < 0.05)),
+                             dict(kind='txin', mut=False))
+        if e == 'newcin-none':
+            return self.emit('newcin - %s %d' % (hx(self.script()), self.u32()), dict(kind='txin', mut=False))
+        if e in ('wl', 'st'):
+            st = [bytes(r.randrange(256) for _ in range(r.choice((0, 1, 33)))) for _ in range(r.randrange(3))]
+            i = r.randrange(max(rt['nin'], 1) + (1 if r.random() < 0.1 else 0))
+            if e == 'wl':
+                tgt = self.tx_part(('wit',)) if r.random() < 0.9 else self.tx_part(('vin', 'in'))
+                if r.random() < 0.5:
+                    return self.emit('wlset %s %d %s' % (tgt, i, s_wit([st])))
+                return self.emit('wlapp %s %s' % (tgt, s_wit([st])))
+            tgt = '%d.2.0.%d' % (t, i) if r.random() < 0.9 else self.tx_part(('wit', 'out'))
+            if r.random() < 0.5:
+                return self.emit('stset %s %d %s' % (tgt, r.randrange(3), hx(bytes(st[0] if st else b'\x07'))))
+            return self.emit('stapp %s %s' % (tgt, hx(bytes(st[0] if st else b''))))
         if e == 'mkseq':
             part = r.choice(('in', 'out'))
             n = r.choice((0, 1, 2, 2, 3))
@@ -856,7 +905,7 @@ class Gen:
                                                             r.choice(('-', self.tx_part(('wit',)))), r.choice('gn')),
                              dict(kind='tx', mut=False, nin=a['nin'], nout=b['nout']))
         if e == 'setwitc':
-            return self.emit('setwitc %d %s %s' % (t, s_wit(self.witness(rt['nin'])), r.choice(('ll', 'lt', 'tl', 'tt'))))
+            return self.emit('setwitc %d %s %s' % (t, s_wit(self.witness(rt['nin'])), r.choice(('ll', 'lt', 'tl', 'tt', 'LL', 'Lt', 'TL', 'lT', 'LT'))))
         if e == 'setref-vin':
             src = self.tx_part(('vin',))
             o = self.roots[int(src.split('.')[0])]
@@ -1012,7 +1061,35 @@ def directed(rng, pool, which):
         g.emit('repin %d 0 %s' % (c, s_txin(g.txin())))
         g.emit('setwitc %d %s %s' % (a, s_wit(g.witness(nin) or [[b'\x01']] * nin), r.choice(('ll', 'lt', 'tl'))))
         g.emit('sighash %d %s 1 %d' % (c, hx(g.script(True)), r.choice((1, 3, 0x81))))
-    else:               # the default witness (a list-backed CTxWitness), its cached hash, and witness replacement
+    elif which == 11:   # D23: immutable-class objects built over a caller's list / mutable outpoint: snapshot, cache,
+        #                 then in-place edits of the part that was handed in
+        tv = g.tx(nin=nin, nout=nout)
+        a = g.emit('newtxd %d %d %s %s' % (tv['ver'], tv['lock'], '|'.join(s_txin(i) for i in tv['vin']),
+                                           '|'.join(s_txout(o) for o in tv['vout'])),
+                   dict(kind='tx', mut=True, nin=nin, nout=nout))
+        st = [bytes([r.randrange(256)]), b'\x51' * r.choice((1, 33))]
+        s1 = g.emit('snap %d' % a, dict(g.roots[a], mut=False))
+        g.emit('hash %d' % s1)
+        g.emit('wlset %d.2 %d %s' % (a, r.randrange(nin), s_wit([st])))
+        g.emit('hash %d' % s1)
+        g.emit('wlapp %d.2 %s' % (r.choice((a, s1)), s_wit([st[:1]])))
+        g.emit('mcopy %d' % s1, dict(g.roots[a], mut=True))
+        g.emit('setwitc %d %s %s' % (a, s_wit([[b'\x01', b'\x02']] * nin), r.choice(('ll', 'lt', 'tl', 'tt', 'LL', 'Lt', 'tL', 'TT'))))
+        s2 = g.emit('snap %d' % a, dict(g.roots[a], mut=False))
+        g.emit('stset %d.2.0.0 %d %s' % (r.choice((a, s2)), r.randrange(2), hx(g.script())))
+        g.emit('stapp %d.2.0.%d %s' % (a, r.randrange(nin), hx(g.script())))
+        g.emit('wlset %d.2 0 %s' % (s2, s_wit([st])))
+        g.emit('hash %d' % s2)
+        c = g.emit('newcin %d.0.0.0 %s %d' % (a, hx(g.script()), g.u32()), dict(kind='txin', mut=False))
+        g.emit('hash %d' % c)
+        sq = g.emit('mkseq in %s %d' % (r.choice('ltLT'), c), dict(kind='seqin', mut=True, nin=1, nout=1))
+        d = g.emit('newctxfrom %d %d.1 %d %d %s %s' % (sq, a, g.u32(), g.version(), r.choice(('-', '%d.2' % a)),
+                                                       r.choice('gn')), dict(kind='tx', mut=False, nin=1, nout=nout))
+        g.emit('newblk %s %d' % (s_hdr((2, g.h32(), bytes(32), 1, 2, 3)), d), dict(kind='blk', mut=False))
+        g.emit('set %d.0.0.0 n %d' % (a, g.u32()))
+        g.emit('set %d.0.0.0 hash %s' % (a, hx(g.h32())))
+        g.emit('hash %d' % d)
+    else:               # the default witness (`CTxWitness([...])`), its cached hash, and witness replacement
         tv = g.tx(nin=nin, nout=nout)
         a = g.emit('newtxd %d %d %s %s' % (tv['ver'], tv['lock'], '|'.join(s_txin(i) for i in tv['vin']),
                                            '|'.join(s_txout(o) for o in tv['vout'])),
@@ -1072,6 +1149,8 @@ ALPHABET = [
     'sighash 0 51 0 3', 'sighashw 0 0 1', 'verify 0 0 ac:1',
     'newblk ' + s_hdr((2, H32[0], H32[0], 1, 2, 3)) + ' 0',
     'setref 1 0 0.0', 'appref 0.0 1.0.0', 'setref 1.0.0 0 0.0.0.0', 'newtxfrom 0.0 0.1 3 2 -',
+    'newtxd 1 0 ' + '|'.join(s_txin(i) for i in TXA['vin']) + ' ' + '|'.join(s_txout(o) for o in TXA['vout']),
+    'wlapp 0.2 1:07', 'newcin 0.0.0.0 51 5',
 ]
 
 
@@ -1089,7 +1168,9 @@ class C09(Prop):
         'inv_init_ext', 'inv_step_ext', 'inv_reachable_ext', 'cache_correct_ext', 'immutable_reach_ext',
         'copy_fresh_ext', 'sighash_preserves_heap_ext', 'verify_preserves_heap_ext', 'heap_ident_eq_value_ext',
         'immutable_setref_rejected_ext', 'immutable_slots_stable_ext', 'immutable_value_stable_ext',
-        'immutable_value_stable_run_ext', 'getHash_reflects_value_ext', 'ser_reflects_value_ext')]
+        'immutable_value_stable_run_ext', 'getHash_reflects_value_ext', 'ser_reflects_value_ext',
+        'immutable_reach_reachable_ext', 'witness_list_edit_rejected_ext', 'witness_stack_edit_rejected_ext',
+        'refines_alias_spec_partial', 'rawSigHash_eq_sighash_model_partial', 'validTx_eq_fromTxOk', 'runX_base')]
     anchors = [('bitcoin/core/serialize.py', q) for q in (
         'Serializable.GetHash', 'Serializable.__eq__', 'Serializable.__hash__',
         'ImmutableSerializable.__setattr__', 'ImmutableSerializable.__delattr__', 'ImmutableSerializable.GetHash',
@@ -1097,20 +1178,26 @@ class C09(Prop):
             '__make_mutable', 'COutPoint.__init__', 'COutPoint.from_outpoint', 'CMutableOutPoint.from_outpoint',
             'CTxIn.__init__', 'CTxIn.from_txin', 'CMutableTxIn.__init__', 'CMutableTxIn.from_txin',
             'CTxOut.__init__', 'CTxOut.from_txout', 'CMutableTxOut.from_txout',
-            'CTxInWitness.from_txinwitness', 'CTxWitness.from_txwitness',
+            'CTxInWitness.__init__', 'CTxInWitness.from_txinwitness', 'CTxWitness.__init__', 'CTxWitness.from_txwitness',
             'CTransaction.__init__', 'CTransaction.from_tx', 'CTransaction.GetTxid',
             'CMutableTransaction.__init__', 'CMutableTransaction.from_tx', 'CBlock.__init__', 'CBlock.GetHash')] + [
-        ('bitcoin/core/script.py', 'RawSignatureHash'), ('bitcoin/core/script.py', 'SignatureHash')]
+        ('bitcoin/core/script.py', 'RawSignatureHash'), ('bitcoin/core/script.py', 'SignatureHash'),
+        ('bitcoin/core/script.py', 'CScriptWitness.__init__')]
     trusted_base = ['Model.Heap transcribes the reference semantics of the classes of core/__init__.py and '
                     'serialize.py (object graph, from_* constructors, cache slots, RawSignatureHash surgery)',
                     'btcmodel executable = compiled Model.* (Lean compiler)',
                     'Python hash() of bytes is a function of the bytes (64-bit collisions ignored)']
     assumptions = ['field values are of the types of Basic/Tx.lean (non-negative n/nSequence/nLockTime, ints, bytes)',
-                   'objects are created and edited only through the catalogue (DESIGN §8 O1 is outside it)']
-    rule = ('histories: 11 directed aliasing templates (incl. every container kind for vin/vout/witness: list, tuple, '
+                   'objects are created and edited only through the catalogue (which includes DESIGN §8 O1 / O11: '
+                   'CTxIn over a mutable outpoint, in-place edits of vtxinwit / scriptWitness.stack; finding D23)',
+                   'refinement of Model.HeapX to Spec.AliasSem is T2 only (refines_alias_spec UNPROVED; proved part: '
+                   'refines_alias_spec_partial, histories without by-reference operations); on the extended catalogue '
+                   '"a mutable copy is unaffected by later edits elsewhere" is copy_fresh_ext + T2',
+                   'the container-kind operations (mkseq / newctxfrom / setwitc) are T2 only']
+    rule = ('histories: 12 directed aliasing templates (incl. every container kind for vin/vout/witness: list, tuple, '
             'subclasses, iterators)  with random values + random histories of 1..40 ops over the '
             'whole catalogue (boundary/mined field values incl. out-of-range ones); thorough: all histories of length '
-            '<= 3 over a 31-op alphabet; after every step every live object is observed; non-trivial = at least one '
+            '<= 3 over a 38-op alphabet; after every step every live object is observed; non-trivial = at least one '
             'object created and one mutation/copy/sighash executed; distinct by history text')
 
     def setup(self):
@@ -1133,7 +1220,7 @@ class C09(Prop):
         pool = list(self.pool)
         i = 0
         for rep in range(60 if big else 12):
-            for which in range(11):
+            for which in range(12):
                 i += 1
                 if i % nshards != shard:
                     continue
@@ -1172,7 +1259,7 @@ class C09(Prop):
 
     def nontrivial(self, c, io):
         h = c['args'][0]
-        return 'created#' in io and any(k in h for k in ('set ', 'snap', 'mcopy', 'addin', 'addout', 'sighash', 'rm'))
+        return 'created#' in io and any(k in h for k in ('set ', 'snap', 'mcopy', 'addin', 'addout', 'sighash', 'rm', 'wl', 'st', 'newcin'))
 
     def describe(self, c):
         return c.get('tag', '')
@@ -1192,6 +1279,15 @@ class C09(Prop):
     def signature(self, c, io, mo):
         if not mo.endswith('@@same') and '@@diff@' in mo and io == mo.split('@@')[0]:
             return 'C09-model-vs-aliasspec'      # heap model and Spec.AliasSem disagree (not a defect of /repo)
+        # D23: the first diverging step comes after an immutable-class object was given a caller's list / mutable
+        # outpoint AND that part was edited in place (or the edit itself was accepted)
+        ios, mos = io.split(';'), mo.split('@@')[0].split(';')
+        k = next((j for j, (a, b) in enumerate(zip(ios, mos)) if a != b), None)
+        if k is not None:
+            ops = c['args'][0].split(';')[:k + 1]
+            if any(op.split(' ')[0] in ('wlset', 'wlapp', 'stset', 'stapp') or
+                   (op.startswith('newcin ') and not op.startswith('newcin - ')) for op in ops):
+                return 'D23-immutable-holds-mutable-part'
         return None
 
 
@@ -1259,7 +1355,7 @@ def drop_step(ops, k):
                         w[j] = _renumber_target(w[j], k)
                         if w[j] is None:
                             return None
-            elif kind == 'newin':
+            elif kind in ('newin', 'newcin'):
                 if w[1] != '-':
                     w[1] = _renumber_target(w[1], k)
             else:
